@@ -2,7 +2,7 @@
 """seed_matrix.py [seed dirs...]: apply every confirmed seeded change (seeded/<ID>-<X>/patch.diff) to a scratch copy
 of /repo and run every claimed check against that copy; writes seeded/MATRIX.json (which check reports a VIOLATION
 for which seed).  /repo itself is not touched; evidence of these runs goes to a scratch directory."""
-import json, os, subprocess, sys, shutil, glob, tempfile, time
+import json, os, subprocess, sys, shutil, glob, tempfile, fcntl, time
 V = '/verif'
 man = json.load(open(V + '/MANIFEST.json'))
 checks = [c['property_id'] for c in man['checks']]
@@ -45,13 +45,17 @@ for s in seeds:
             if row[c]['violations']: old['detail'][c] = row[c]['violations']
         old['detected_by'].sort(); old['broken'].sort()
         print(s, 'partial', {c: row[c]['rc'] for c in checks}, flush=True)
-        cur = json.load(open(out_path)) if os.path.exists(out_path) else {}
-        cur.update({k: v for k, v in res.items() if k in done_here})
-        json.dump(cur, open(out_path, 'w'), indent=1, sort_keys=True)
+        with open(out_path + '.lock', 'w') as lk:
+            fcntl.flock(lk, fcntl.LOCK_EX)
+            cur = json.load(open(out_path)) if os.path.exists(out_path) else {}
+            cur.update({k: v for k, v in res.items() if k in done_here})
+            json.dump(cur, open(out_path, 'w'), indent=1, sort_keys=True)
         continue
     res[s] = {'repo_head': head, 'detected_by': sorted(c for c, v in row.items() if v['rc'] == 1), 'broken': sorted(c for c, v in row.items() if v['rc'] not in (0, 1)), 'detail': {c: v['violations'] for c, v in row.items() if v['violations']}}
     print(s, 'detected by', res[s]['detected_by'], 'broken', res[s]['broken'], flush=True)
-    cur = json.load(open(out_path)) if os.path.exists(out_path) else {}
-    cur.update({k: v for k, v in res.items() if k in done_here})
-    json.dump(cur, open(out_path, 'w'), indent=1, sort_keys=True)
+    with open(out_path + '.lock', 'w') as lk:
+        fcntl.flock(lk, fcntl.LOCK_EX)
+        cur = json.load(open(out_path)) if os.path.exists(out_path) else {}
+        cur.update({k: v for k, v in res.items() if k in done_here})
+        json.dump(cur, open(out_path, 'w'), indent=1, sort_keys=True)
 shutil.rmtree(work, ignore_errors=True)
